@@ -231,7 +231,7 @@ def spec_battle_model(ctx):
 
 def check_C02(ctx):
     ctx.cov["rule"] = ("random battles of 1..4 warriors (imps, dwarfs, SPL fans, suicides, random and hostile code), overlapping/wrapping loads, "
-                       "M in 3..64, P in 1..6, C in 1..60, all limit classes; every RunCycle of the real simulator is one validated step of MARS!CycleW, "
+                       "M in 3..64, P in 1..6, C in 1..60, all limit classes, plus battles between the repository's own warriors on the 8000-cell core; every RunCycle of the real simulator is one validated step of MARS!CycleW, "
                        "and a twin simulator driven by Run() must end in the stepped final state. "
                        "distinct_nontrivial = cycles in which a warrior died in a multi-warrior battle + cycles with a queue at the process limit.")
     ctx.cov["trusted_base"] = ["harness/enc.go tables", "generic core diff", "harness stop-rule loop (checked by TLC: ~InProgress at the twin event)", "TLC", "Json module"]
@@ -240,8 +240,12 @@ def check_C02(ctx):
     shards, st = gen_battles(ctx, "battles", ["-shards", 16 if ctx.quick else 64, "-n", n], "bt")
     s2, st2 = gen_battles(ctx, "battles", ["-shards", 8, "-n", n // 3, "-hostile"], "bh")
     shards += s2
+    # the repository's own warriors on the standard 8000-cell core (with and without read/write limits)
+    s3, st3 = gen_battles(ctx, "battles", ["-shards", 4 if ctx.quick else 16, "-n", 0, "-real", 4 if ctx.quick else 48, "-realcycles", 300 if ctx.quick else 2000, "-repo", REPO], "real")
+    shards += s3
+    ctx.notes["repository_warrior_battles_on_8000_cells"] = st3["battles"]
     rej = ctx.validate_shards("BattleTrace", shards, mode="C02", heap="4g")
-    ctx.cov["traces_validated_against_impl"] = st["battles"] + st2["battles"]
+    ctx.cov["traces_validated_against_impl"] = st["battles"] + st2["battles"] + st3["battles"]
     ctx.cov["evaluations"] = st["events"] + st2["events"]
     ctx.cov["distinct_nontrivial"] = st["multi_death"] + st["at_limit"] + st2["multi_death"] + st2["at_limit"]
     for k in ("cycles", "three_plus", "end_cycle", "end_lone", "end_survivor", "mid_death"):
@@ -326,7 +330,7 @@ def replay_battle(ctx, payload):
 
 
 def check_C13(ctx):
-    ctx.cov["rule"] = ("ALL call histories up to depth d (quick 3, thorough 4) over {AddWarrior(w in pool of 3), SpawnWarrior(i in -1..count+1, off in {0,M-1,M,2M+3}), RunCycle, Run, Reset} "
+    ctx.cov["rule"] = ("ALL call histories up to depth d (quick 4: 132 303 histories, thorough 5) over {AddWarrior(w in pool of 3), SpawnWarrior(i in -1..count+1, off in {0,M-1,M,2M+3}), RunCycle, Run, Reset} "
                        "on a 3-cell core, plus random histories of length 40 on cores 3..8; after EVERY call GetWarrior(-1..count+1), NextPC/Length/Alive/Queue of every warrior, "
                        "GetMem beyond the core, CycleCount/MaxCycles/CoreSize are called and logged; every call runs under recover and Run() under a 3 s watchdog. "
                        "TLC validates each logged call against MARS.tla (BattleTrace mode C13). distinct_nontrivial = distinct histories executed.")
@@ -335,9 +339,9 @@ def check_C13(ctx):
     r = ctx.tlc("MC_API", cfg=cfg, workers=NCPU, timeout=3000, heap="16g")
     ctx.notes["spec_model"] = "%s: complete reachable API state graph, %d distinct states / %d transitions; Safe, ResetEqualsFresh, RunStops, BadSpawnNoChange, AliveSpawnRefused hold" % (cfg, r["distinct"], r["generated"])
     if ctx.quick:
-        shards, st = gen_battles(ctx, "api", ["-shards", 16, "-depth", 3, "-random", 400], "api")
+        shards, st = gen_battles(ctx, "api", ["-shards", 32, "-depth", 4, "-random", 400], "api")
     else:
-        shards, st = gen_battles(ctx, "api", ["-shards", 96, "-depth", 4, "-random", 20000], "api")
+        shards, st = gen_battles(ctx, "api", ["-shards", 192, "-depth", 5, "-random", 20000], "api")
     rej = ctx.validate_shards("BattleTrace", shards, mode="C13", heap="5g")
     ctx.cov["traces_validated_against_impl"] = st["histories"]
     ctx.cov["evaluations"] = st["events"]
